@@ -609,6 +609,25 @@ class Engine(
         """  # noqa: D401
         columns_available: Mapping[ColumnTag, _L] | None = None
         executable: sqlalchemy.sql.Select | sqlalchemy.sql.CompoundSelect
+        if select.payload is not None:
+            # A payload attached to the Select itself already represents its
+            # rows (as `to_payload` assumes for nested Selects); query that
+            # instead of converting the tree upstream of it again.
+            own_payload: Payload[_L] = select.payload
+            if not select.columns and not extra_columns:
+                extra_columns = list(extra_columns)
+                self.handle_empty_columns(extra_columns)
+            executable = self.select_items(
+                [
+                    (tag, own_payload.columns_available[tag])
+                    for tag in sorted(select.columns, key=self.get_identifier)
+                ],
+                own_payload.from_clause,
+                *extra_columns,
+            )
+            if own_payload.where:
+                executable = executable.where(sqlalchemy.sql.and_(*own_payload.where))
+            return executable
         match select.skip_to:
             case BinaryOperationRelation(operation=Chain(), lhs=lhs, rhs=rhs):
                 lhs_executable = self._select_to_executable(cast(Select, lhs), extra_columns)
